@@ -1,3 +1,5 @@
 import PrefVerif.Model.Distances
+import PrefVerif.Model.SingleWinner
 import PrefVerif.Spec.Distances
+import PrefVerif.Spec.Voting
 import PrefVerif.Props.C20
